@@ -5,6 +5,7 @@ import Casket.Proofs.ParserMono
 import Casket.Proofs.ParserPos
 import Casket.Proofs.ParserRT
 import Casket.Proofs.ParserSplice
+import Casket.Proofs.ParserSpliceM
 import Casket.Proofs.ParserCycle
 import Casket.Proofs.Env
 import Casket.Proofs.Lexer
@@ -323,6 +324,64 @@ theorem C10_inline_import_equiv_partial (cfg : Cfg) (hf : 0 < cfg.envFuel) (hv :
       · exact hbs x hx) fuel hfuelI, ?_⟩
   simp only [List.map_cons, List.cons.injEq, and_true]
   exact textsOf_expected b run runI hsame
+
+/-- Structure preservation across ANY NUMBER of imports, in ANY block.  A configuration in which, in every server block,
+any number of runs of whole directives have been moved into files and replaced by `import <file>` lines (`WItem`: a
+block's body is a list of directives and import lines; the same file may be imported several times) parses to the
+blocks of the inline text in which every run stands in place of its import line: same keys, and per directive name the
+same tokens in order, the imported ones carrying their file's name and lines.
+PARTIAL — what is missing: import lines nested inside a directive's `{ … }` sub-block or at address position, glob
+patterns matching several files, imports inside imported files, snippets (covered by the stream c10.rt). -/
+theorem C10_import_splice_multi_partial (cfg : Cfg) (hf : 0 < cfg.envFuel) (hv : cfg.valid = none) (hcc : cfg.cycleCheck = true)
+    (fn : String) (bs : List WBlockM) (hall : ∀ b ∈ bs, blockMOK cfg b = true) (fuel : Nat)
+    (hfuel : 2 * ((flattenM bs).length + impLenB bs) + 2 ≤ fuel) :
+    parseTokens cfg fuel fn (flattenM bs) = .ok (bs.map fun b => expectedBlock b.inline) :=
+  parseTokens_m cfg hf hv hcc fn bs hall fuel hfuel
+
+/-- non-vacuity (a test, by evaluation): `a {⏎ import f0⏎}⏎b {⏎ d1 x⏎ import f0⏎ import f1⏎ log⏎}` with the files `f0` = `dir2 x⏎`
+and `f1` = `gz⏎tls off⏎` — two blocks, three import lines, one file imported twice — is such a configuration: the lexer's
+tokens are `flattenM`, every block passes `blockMOK`; the second block's directives are spelled out -/
+example :
+    let t (f : String) (l : Nat) (s : List UInt8) : Token := ⟨f, l, s⟩
+    let c0 : Bytes := [100, 105, 114, 50, 32, 120, 10]
+    let c1 : Bytes := [103, 122, 10, 116, 108, 115, 32, 111, 102, 102, 10]
+    let run0 : List WDir := [⟨t "f0" 1 [100, 105, 114, 50], [t "f0" 1 [120]]⟩]
+    let run1 : List WDir := [⟨t "f1" 1 [103, 122], []⟩, ⟨t "f1" 2 [116, 108, 115], [t "f1" 2 [111, 102, 102]]⟩]
+    let b1 : WBlockM := ⟨[t "" 1 [97]], t "" 1 lbrace, [.imp (t "" 2 sImport) (t "" 2 [102, 48]) "f0" c0 run0], t "" 3 rbrace⟩
+    let b2 : WBlockM := ⟨[t "" 4 [98]], t "" 4 lbrace,
+      [.dir ⟨t "" 5 [100, 49], [t "" 5 [120]]⟩, .imp (t "" 6 sImport) (t "" 6 [102, 48]) "f0" c0 run0,
+       .imp (t "" 7 sImport) (t "" 7 [102, 49]) "f1" c1 run1, .dir ⟨t "" 8 [108, 111, 103], []⟩],
+      t "" 9 rbrace⟩
+    let cfg : Cfg := { fs := ⟨[("f0", c0), ("f1", c1)]⟩ }
+    lex [97, 32, 123, 10, 32, 105, 109, 112, 111, 114, 116, 32, 102, 48, 10, 125, 10, 98, 32, 123, 10, 32, 100, 49, 32, 120, 10,
+         32, 105, 109, 112, 111, 114, 116, 32, 102, 48, 10, 32, 105, 109, 112, 111, 114, 116, 32, 102, 49, 10, 32, 108, 111,
+         103, 10, 125] = flattenM [b1, b2] ∧
+    blockMOK cfg b1 = true ∧ blockMOK cfg b2 = true ∧
+    (expectedBlock b2.inline).tokens.map (fun p => (p.1, p.2.length)) =
+      [([100, 49], 2), ([100, 105, 114, 50], 2), ([103, 122], 1), ([116, 108, 115], 2), ([108, 111, 103], 1)] := by
+  decide
+
+/-- "Regardless of whether the text was written inline or in imported files", any number of imports: if for every block
+the directives are ALSO written inline as `q.2` (any layout that is a written configuration) with the same texts as the
+items stand for, both parses succeed and return the same blocks up to the tokens' file/line attributes.
+PARTIAL: same scope as `C10_import_splice_multi_partial`. -/
+theorem C10_inline_import_equiv_multi_partial (cfg : Cfg) (hf : 0 < cfg.envFuel) (hv : cfg.valid = none)
+    (hcc : cfg.cycleCheck = true) (fn : String) (pairs : List (WBlockM × List WDir))
+    (hall : ∀ q ∈ pairs, blockMOK cfg q.1 = true ∧ blockOK (q.1.inlineWith q.2) = true ∧
+      (inlineDirs q.1.items).map dirTexts = q.2.map dirTexts) (fuel : Nat)
+    (hfuel : 2 * ((flattenM (pairs.map (·.1))).length + impLenB (pairs.map (·.1))) + 2 ≤ fuel)
+    (hfuelI : (flatten (pairs.map fun q => q.1.inlineWith q.2)).length + 1 ≤ fuel) :
+    ∃ r1 r2, parseTokens cfg fuel fn (flattenM (pairs.map (·.1))) = .ok r1 ∧
+      parseTokens cfg fuel fn (flatten (pairs.map fun q => q.1.inlineWith q.2)) = .ok r2 ∧
+      r1.map textsOf = r2.map textsOf := by
+  refine ⟨_, _, parseTokens_m cfg hf hv hcc fn _ (fun b hb => by
+      obtain ⟨q, hq, rfl⟩ := List.mem_map.mp hb; exact (hall q hq).1) fuel hfuel,
+    parseTokens_rt cfg hf hv fn _ (fun x hx => by
+      obtain ⟨q, hq, rfl⟩ := List.mem_map.mp hx; exact (hall q hq).2.1) fuel hfuelI, ?_⟩
+  simp only [List.map_map]
+  apply List.map_congr_left
+  intro q hq
+  exact textsOf_inlineWith q.1 q.2 (hall q hq).2.2
 
 /-! ### environment placeholders -/
 
